@@ -212,18 +212,18 @@ Proof.
 Qed.
 
 (* create-bucket decision over the set of existing names *)
-Definition create_bucket (existing : list (list N)) (name : list N) : list (list N) * bool :=
+Definition name_create (existing : list (list N)) (name : list N) : list (list N) * bool :=
   if validate name && negb (existsb (beq name) existing) then (name :: existing, true)
   else (existing, false).
 
 Lemma create_iff existing name :
-  snd (create_bucket existing name) = true <->
+  snd (name_create existing name) = true <->
   valid name = true /\ existsb (beq name) existing = false.
 Proof.
-  unfold create_bucket. rewrite validate_eq_valid.
+  unfold name_create. rewrite validate_eq_valid.
   destruct (valid name), (existsb (beq name) existing); cbn; intuition discriminate.
 Qed.
 
 Lemma create_refused_creates_nothing existing name :
-  snd (create_bucket existing name) = false -> fst (create_bucket existing name) = existing.
-Proof. unfold create_bucket. destruct (validate name && _); cbn; [discriminate|reflexivity]. Qed.
+  snd (name_create existing name) = false -> fst (name_create existing name) = existing.
+Proof. unfold name_create. destruct (validate name && _); cbn; [discriminate|reflexivity]. Qed.
